@@ -29,6 +29,11 @@ func runC07(ctx *Ctx) {
 	ruleTeardown(ctx, "C07-R5")
 	ruleFinishAccounting(ctx, "C07-R6")
 	ruleCountingPaths(ctx, "C07-R7")
+	// an answer is destroyed (and the exports its results refer to released)
+	// when both its Return was sent and its Finish received: the decision must
+	// not be taken on a snapshot of answer.flags from before Conn.mu was
+	// released (shared with C06-R8)
+	ruleStaleGuardedRead(ctx, "C07-R8s", rpcScope)
 	r := ctx.Rep
 	r.Floor("C07-R1", 8)
 	r.Floor("C07-R2", 15)
@@ -69,7 +74,7 @@ func ruleRefWriters(ctx *Ctx, rule string) {
 	for _, f := range q.FuncsIn("rpc") {
 		name := ssaq.FuncName(f)
 		k := 0
-		for _, b := range f.Blocks {
+		for _, b := range frameBlocks(f) {
 			for _, in := range b.Instrs {
 				st, ok := in.(*ssa.Store)
 				if !ok {
@@ -131,7 +136,7 @@ func ruleRefWriters(ctx *Ctx, rule string) {
 	// releaseExport: the slot is cleared only when count == wireRefs; decrement otherwise under count < wireRefs
 	if f := q.Func("rpc.(*Conn).releaseExport"); f != nil {
 		wr := mustField(ctx, rule, "rpc", "expent", "wireRefs")
-		for _, b := range f.Blocks {
+		for _, b := range frameBlocks(f) {
 			for _, in := range b.Instrs {
 				st, ok := in.(*ssa.Store)
 				if !ok {
@@ -202,7 +207,7 @@ func ruleReleaseMessage(ctx *Ctx, rule string) {
 	}
 	// delete(c.imports, id) dominated by generation equality
 	foundDelete := false
-	for _, b := range f.Blocks {
+	for _, b := range frameBlocks(f) {
 		for _, in := range b.Instrs {
 			cc, ok := ssaq.BuiltinCall(in, "delete")
 			if !ok {
@@ -265,7 +270,7 @@ func ruleReleaseMessage(ctx *Ctx, rule string) {
 	// addImport: wireRefs++ on the existing-entry path and wireRefs: 1 on the new path
 	if af := q.Func("rpc.(*Conn).addImport"); af != nil {
 		inc, one := false, false
-		for _, b := range af.Blocks {
+		for _, b := range frameBlocks(af) {
 			for _, in := range b.Instrs {
 				st, ok := in.(*ssa.Store)
 				if !ok {
@@ -620,7 +625,7 @@ func ruleFinishAccounting(ctx *Ctx, rule string) {
 		r.Fail("%s: anchor handleFinish not found", rule)
 	} else {
 		found := false
-		for _, b := range f.Blocks {
+		for _, b := range frameBlocks(f) {
 			for _, in := range b.Instrs {
 				st, ok := in.(*ssa.Store)
 				if !ok {
@@ -693,7 +698,7 @@ func ruleFinishAccounting(ctx *Ctx, rule string) {
 		r.Fail("%s: anchor answer.destroy not found", rule)
 	} else {
 		found := false
-		for _, b := range f.Blocks {
+		for _, b := range frameBlocks(f) {
 			for _, in := range b.Instrs {
 				if ssaq.StaticCalleeName(in) != "rpc.(*Conn).releaseExports" {
 					continue
